@@ -196,6 +196,44 @@ CHECKS["C10"] = dict(
    technique="Coq invariant + recovery proofs over symbol streams + tick-trace replay correspondence + hostile-audio sampling under catch_unwind",
    ref="§5 C10, §11")
 
+APP_NOTE = ("Trusted: Coq kernel; hand-written App model over an abstract receiver (iterator contract as explicit hypotheses: a call consumes "
+            "a prefix; None only at end of input and then idempotent) and a spawn oracle; extraction; the scripted-transducer driver; "
+            "Rust harness (synthfile: same quantized samples decoded by the library configured as samedec configures it); the built samedec "
+            "binary and POSIX sh children. No axioms. Not modelled: process creation, pipes, SIGPIPE, blocking, exit statuses - exercised on "
+            "the binary by the correspondence runs.")
+CHECKS["C11"] = dict(
+   text="Control flow proved, OS half by correspondence (partial). Machine-checked over ANY receiver with the iterator contract, any input, "
+        "any child configuration, any spawn oracle: when samedec's loop finishes, its standard output is what the specification loop "
+        "(next message, or at end of input flush; print; repeat - it never looks at the child) produces; with --quiet nothing is printed; "
+        "the specification is deterministic in its fuel. Tie on every run: recordings of 0..4 transmissions (lossy, header after header, "
+        "close-cut, odd trailing byte, 8000..48000 Hz) are decoded by the library, run through the EXTRACTED App model, and through the built "
+        "binary under 8 option/child/stdin variants: stdout(binary) == o_stdout(model) == library messages, exit 0.",
+   note=APP_NOTE,
+   technique="Coq refinement proof (app loop vs print-every-message spec) + extracted-model / binary / library three-way correspondence",
+   ref="§5 C11, §11")
+CHECKS["C12"] = dict(
+   text="Control flow and environment function proved, OS half by correspondence (partial). Machine-checked: exactly one spawn attempt per "
+        "printed StartOfMessage, in order; every child's input is a CONTIGUOUS run of the original input starting at the number of samples "
+        "consumed when its StartOfMessage was returned and ending with the sample that completed the next message (or end of input), for "
+        "any receiver whose next() consumes a prefix (shown for the receiver model); the environment is total on every accepted header "
+        "(no accessor panics) and each variable is the corresponding grammar component, PURGETIME - ISSUETIME = validity whenever the issue "
+        "time is computable, both empty otherwise; the space-separated locations can be read back. Tie: samedec with a recorder child on "
+        "recordings of 8 header kinds: environments equal the extracted build_env and a property-text oracle, child input bytes equal the "
+        "file slice the extracted App model predicts, no two children alive at once, every child finished before exit.",
+   note=APP_NOTE + " The environment depends on the wall clock (year inference): the model is given the UTC date of the run.",
+   technique="Coq proofs (invariant over the app loop, accessor totality from C06) + recorder-child correspondence against the extracted model",
+   ref="§5 C12, §11")
+CHECKS["C19"] = dict(
+   text="Control flow proved, OS half by correspondence (partial). Machine-checked: two finished runs on the same input - with a child and "
+        "ANY spawn oracle, and with no child - print the same messages (what the child does with its input and how it exits are not even "
+        "inputs of the model: the code discards write results and exit status). Tie: assignments of seven per-invocation child behaviours "
+        "(exit 0/1 at once, close stdin and linger, partial read, slow reader, killed, non-zero exit after reading) to the messages of "
+        "recordings with 1..3 messages, plus missing executable and non-executable file: stdout identical to the run without a child and to "
+        "the extracted model, exit status 0, finished within the wall-clock bound.",
+   note=APP_NOTE,
+   technique="Coq proof (independence of the spawn oracle via the common spec) + fault-injecting-child runs of the binary vs extracted model",
+   ref="§5 C19, §11")
+
 NOT_APPLICABLE = {}
 
 def main():
